@@ -68,7 +68,61 @@ def rules(model: Model, tier: str) -> List[RuleResult]:
     Dm = RuleResult(PROP, "C18-D", "solve / symeig: the backward defaults do not inherit the forward `method` (a forward-only callable is never reused for the adjoint system)", min_instances=2)
     _minimize_kinds(model, K)
     _backward_defaults(model, Dm)
+    _family_tables(model, L)
+    _default_merge(model, O)
     return [G, L, C, Rr, A, N, O, K, Dm]
+
+
+def _family_tables(model: Model, L: RuleResult):
+    """_RootFinder serves three functionals; the table searched for a functional must contain exactly the names documented for its
+    family (a merged registry would let `rootfinder(method="anderson_acc")` run a fixed-point iteration on the residual)."""
+    rel = "xitorch/optimize/rootfinder.py"
+    fw = model.func(rel, "_RootFinder.forward")
+    mod = fw.module
+    want = {}
+    for fam, tname in (("rootfinder", "_RF_METHODS"), ("equilibrium", "_EQUIL_METHODS"), ("minimizer", "_OPT_METHODS")):
+        v = mod.assigns.get(tname)
+        if not isinstance(v, ast.Dict):
+            raise AnchorError("family table %s vanished" % tname)
+        want[fam] = {k.value for k in v.keys if isinstance(k, ast.Constant)}
+    tabs = dispatch_tables_in(model, fw)
+    if not tabs:
+        raise AnalysisError("C18-L: the table of _RootFinder.forward is not resolvable")
+    by_label = {}
+    for t in tabs:
+        by_label.setdefault(t.label, set()).update(k for k, _ in t.entries if k is not None)
+    if set(by_label) == set(want):
+        for fam in sorted(want):
+            if by_label[fam] == want[fam]:
+                L.ok(fw.fq, "family %r is dispatched over exactly its own table (%d names)" % (fam, len(want[fam])))
+            else:
+                extra = sorted(by_label[fam] - want[fam])
+                L.bad(fw, enclosing_stmt(tabs[0].call), "family %r is dispatched over names of another family %s: a method valid for a sibling functional is no longer rejected and "
+                      "runs on the wrong kind of function" % (fam, extra))
+    else:
+        allk = set().union(*by_label.values())
+        L.bad(fw, enclosing_stmt(tabs[0].call), "the method table of _RootFinder.forward is not selected by the algorithm family (found %s holding %d names): names of sibling "
+              "functionals are accepted by all three" % (sorted(by_label), len(allk)))
+    # the same for the pre-dispatch membership tests of the wrappers: equilibrium tests _EQUIL_METHODS, minimize tests _RF_METHODS / _OPT_METHODS
+    # (covered by C18-K for minimize)
+
+
+def _default_merge(model: Model, O: RuleResult):
+    """set_default_option(defopt, opt) is `copy of defopt, updated with opt itself`: every key the caller passes wins, whatever its value
+    (a filter such as `if v is not None` silently replaces an explicit None by the default / drops it from a custom method's kwargs)."""
+    f = model.func(MISC, "set_default_option")
+    d, o = f.params()[:2]
+    ups = [c for c in own_nodes(f.node) if isinstance(c, ast.Call) and isinstance(c.func, ast.Attribute) and c.func.attr == "update"]
+    cps = [s_ for s_ in own_nodes(f.node) if isinstance(s_, ast.Assign) and isinstance(s_.value, ast.Call) and ast.unparse(s_.value.func) in ("copy.copy", "dict", "copy.deepcopy")
+           and ast.unparse(s_.value.args[0]) == d]
+    rets = [r for r in own_nodes(f.node) if isinstance(r, ast.Return)]
+    ok = len(ups) == 1 and len(ups[0].args) == 1 and isinstance(ups[0].args[0], ast.Name) and ups[0].args[0].id == o and len(cps) == 1 and \
+        ast.unparse(ups[0].func.value) == ast.unparse(cps[0].targets[0]) and len(rets) == 1 and ast.unparse(rets[0].value) == ast.unparse(cps[0].targets[0])
+    if ok:
+        O.ok(f.fq, "set_default_option returns copy(defopt) updated with opt itself (no key or value is filtered)")
+    else:
+        O.bad(f, ups[0] if ups else f.node, "set_default_option must be `res = copy(defopt); res.update(opt); return res`: filtering the caller's options changes what an "
+              "implementation (built-in or custom) receives")
 
 
 def _minimize_kinds(model: Model, K: RuleResult):
